@@ -90,7 +90,6 @@ def run(d, name='MC', workers=16, timeout=3600, env=None, extra=(), heap='8g', s
     except subprocess.TimeoutExpired as ex:
         out = ex.stdout if isinstance(ex.stdout, str) else (ex.stdout or b'').decode('utf8', 'replace')
         rc, timed_out = -9, True
-        subprocess.run(['pkill', '-f', 'meta_' + name], check=False)
     wall = time.time() - t0
     with open(os.path.join(d, name + '.out'), 'w') as f:
         f.write(out)
